@@ -42,21 +42,18 @@ Start(st, bs, mode) ==
     /\ pc = "setup" /\ Total \in par.ns
     /\ \E k \in DOMAIN species : species[k].fit[1] > 0          \* quantifier of C09: at least one positive fitness
     /\ bs <= Total \div 2
-    /\ res' = [st |-> st, bs |-> bs, mode0 |-> mode,
-               hf0 |-> IF mode = "fresh" THEN 0 ELSE 100,
-               ehlc0 |-> IF mode = "fresh" THEN 0 ELSE IF mode = "stale" THEN par.dropoff + 4 ELSE par.dropoff + 3]
-    /\ pc' = "start"
-    /\ UNCHANGED <<species, par>>
-
-DoAdjust ==
-    /\ pc = "start"
-    /\ res' = [adj |-> [k \in DOMAIN species |-> Adjust(species[k], Opts, MaxN)]] @@ res
+    /\ LET o == [dropoff |-> par.dropoff, sig |-> par.sig, st |-> st, bs |-> bs]
+           ad == [k \in DOMAIN species |-> Adjust(species[k], o, MaxN)]      \* Species.adjustFitness, every species
+           adjs == [k \in DOMAIN species |-> ad[k].adj]
+       IN res' = [st |-> st, bs |-> bs, mode0 |-> mode,
+                  hf0 |-> IF mode = "fresh" THEN 0 ELSE 100,
+                  ehlc0 |-> IF mode = "fresh" THEN 0 ELSE IF mode = "stale" THEN par.dropoff + 4 ELSE par.dropoff + 3,
+                  adj |-> ad, ens |-> ENum(adjs), T |-> TDen(adjs)]
     /\ pc' = "adjusted"
     /\ UNCHANGED <<species, par>>
 
-Adjs == [k \in DOMAIN species |-> res.adj[k].adj]
-Ens == ENum(Adjs)
-T == TDen(Adjs)
+Ens == res.ens
+T == res.T
 
 DoCount(lost) ==
     /\ pc = "adjusted"
@@ -71,57 +68,50 @@ Ages == [k \in DOMAIN species |-> species[k].age]
 BestOrig == [k \in DOMAIN species |-> res.adj[k].orig[1]]
 Aoli1 == [k \in DOMAIN species |-> res.adj[k].aoli]
 
+\* B2: the finished behaviour.  Rationals are numerators over the stated denominators (lden, T).
+CaseOf(r) ==
+    [n |-> N, dropoff |-> par.dropoff, sig |-> par.sig, st |-> r.st, bs |-> r.bs, hf0 |-> r.hf0, ehlc0 |-> r.ehlc0,
+     species |-> [k \in DOMAIN species |-> [id |-> species[k].id, age |-> species[k].age, aoli |-> species[k].aoli,
+                                             mx |-> species[k].mx, fit |-> species[k].fit]],
+     lden |-> LDen(Opts, MaxN),
+     adj |-> [k \in DOMAIN species |-> [a |-> r.adj[k].adj, orig |-> r.adj[k].orig, aoli |-> r.adj[k].aoli, mx |-> r.adj[k].mx,
+                                         parents |-> r.adj[k].parents, pen |-> r.adj[k].penalised, young |-> r.adj[k].young]],
+     T |-> r.T, e |-> r.ens,
+     fc |-> [k \in DOMAIN species |-> FloorCum(r.ens, r.T, k)], bnd |-> [k \in DOMAIN species |-> Boundary(r.ens, r.T, k)],
+     lost |-> r.lost, raw |-> r.raw, q1 |-> r.q1, mk |-> r.mk, died |-> r.died, kept |-> r.kept,
+     sorted |-> r.sorted, sorttie |-> SortTie(r.kept, BestOrig, Ages), mode |-> r.mode, q2 |-> r.q2, sc |-> r.sc,
+     aoli2 |-> r.aoli2, hf |-> r.hf, ehlc |-> r.ehlc, taken |-> r.taken,
+     coins |-> [i \in DOMAIN r.sorted |-> i \in r.coins], flips |-> [i \in DOMAIN r.sorted |-> i \in r.used]]
+
+\* sort, population stagnation, deltaCoding / giveBabiesToTheBest (cs: sorted positions whose coin shows "give");
+\* then purgeOrganisms leaves every species its parents and each listed species produces its quota of offspring
 DoRedistribute(cs) ==
     /\ pc = "counted"
     /\ LET srt == Sorted(res.kept, BestOrig, Ages)
            sg == Stagnation(res.hf0, res.ehlc0, BestOrig[srt[1]])
            zero == [k \in DOMAIN species |-> 0]
            coins == [i \in DOMAIN srt |-> i \in cs]
-       IN IF sg.ehlc >= par.dropoff + 5
-          THEN LET d == Delta(srt, [q |-> res.q1, sc |-> zero, aoli |-> Aoli1], Ages, N) IN
-               /\ cs = {}
-               /\ res' = [sorted |-> srt, mode |-> "delta", q2 |-> d.q, sc |-> d.sc, aoli2 |-> d.aoli, hf |-> sg.hf, ehlc |-> 0,
-                          taken |-> 0, coins |-> {}, used |-> {}] @@ res
-          ELSE IF res.bs > 0
-          THEN LET s == Steal(srt, [q |-> res.q1, sc |-> zero], Ages, [k \in DOMAIN species |-> Ages[k] - Aoli1[k]], Opts, coins) IN
-               /\ cs \subseteq s.used
-               /\ res' = [sorted |-> srt, mode |-> "steal", q2 |-> s.q, sc |-> s.sc, aoli2 |-> Aoli1, hf |-> sg.hf, ehlc |-> sg.ehlc,
-                          taken |-> s.taken, coins |-> cs, used |-> s.used] @@ res
-          ELSE /\ cs = {}
-               /\ res' = [sorted |-> srt, mode |-> "none", q2 |-> res.q1, sc |-> zero, aoli2 |-> Aoli1, hf |-> sg.hf, ehlc |-> sg.ehlc,
-                          taken |-> 0, coins |-> {}, used |-> {}] @@ res
-    /\ pc' = "redistributed"
-    /\ UNCHANGED <<species, par>>
-
-\* B2: the finished behaviour.  Rationals are numerators over the stated denominators (lden, T).
-CaseOf ==
-    [n |-> N, dropoff |-> par.dropoff, sig |-> par.sig, st |-> res.st, bs |-> res.bs, hf0 |-> res.hf0, ehlc0 |-> res.ehlc0,
-     species |-> [k \in DOMAIN species |-> [id |-> species[k].id, age |-> species[k].age, aoli |-> species[k].aoli,
-                                             mx |-> species[k].mx, fit |-> species[k].fit]],
-     lden |-> LDen(Opts, MaxN),
-     adj |-> [k \in DOMAIN species |-> [a |-> res.adj[k].adj, orig |-> res.adj[k].orig, aoli |-> res.adj[k].aoli, mx |-> res.adj[k].mx,
-                                         parents |-> res.adj[k].parents, pen |-> res.adj[k].penalised, young |-> res.adj[k].young]],
-     T |-> T, e |-> Ens,
-     fc |-> [k \in DOMAIN species |-> FloorCum(Ens, T, k)], bnd |-> [k \in DOMAIN species |-> Boundary(Ens, T, k)],
-     lost |-> res.lost, raw |-> res.raw, q1 |-> res.q1, mk |-> res.mk, died |-> res.died, kept |-> res.kept,
-     sorted |-> res.sorted, sorttie |-> SortTie(res.kept, BestOrig, Ages), mode |-> res.mode, q2 |-> res.q2, sc |-> res.sc,
-     aoli2 |-> res.aoli2, hf |-> res.hf, ehlc |-> res.ehlc, taken |-> res.taken,
-     coins |-> [i \in DOMAIN res.sorted |-> i \in res.coins], ncoins |-> Cardinality(res.used)]
-
-\* purgeOrganisms: every species keeps its parents; then each listed species produces its quota of offspring
-DoPurge ==
-    /\ pc = "redistributed"
-    /\ PrintT(ToJson(CaseOf))
+           nr == IF sg.ehlc >= par.dropoff + 5
+                 THEN LET d == Delta(srt, [q |-> res.q1, sc |-> zero, aoli |-> Aoli1], Ages, N) IN
+                      [sorted |-> srt, mode |-> "delta", q2 |-> d.q, sc |-> d.sc, aoli2 |-> d.aoli, hf |-> sg.hf, ehlc |-> 0,
+                       taken |-> 0, coins |-> {}, used |-> {}] @@ res
+                 ELSE IF res.bs > 0
+                 THEN LET s == Steal(srt, [q |-> res.q1, sc |-> zero], Ages, [k \in DOMAIN species |-> Ages[k] - Aoli1[k]], Opts, coins) IN
+                      [sorted |-> srt, mode |-> "steal", q2 |-> s.q, sc |-> s.sc, aoli2 |-> Aoli1, hf |-> sg.hf, ehlc |-> sg.ehlc,
+                       taken |-> s.taken, coins |-> cs, used |-> s.used] @@ res
+                 ELSE [sorted |-> srt, mode |-> "none", q2 |-> res.q1, sc |-> zero, aoli2 |-> Aoli1, hf |-> sg.hf, ehlc |-> sg.ehlc,
+                       taken |-> 0, coins |-> {}, used |-> {}] @@ res
+       IN /\ cs \subseteq nr.used
+          /\ res' = nr
+          /\ PrintT(ToJson(CaseOf(nr)))
     /\ pc' = "done"
-    /\ UNCHANGED <<species, par, res>>
+    /\ UNCHANGED <<species, par>>
 
 Next ==
     \/ \E n \in 1..(par.maxn - Total) : \E fs \in NonIncTab[n][par.maxfit], c \in par.classes : AddSpecies(fs, c)
     \/ \E st \in par.sts, bs \in par.bss, mode \in par.modes : Start(st, bs, mode)
-    \/ DoAdjust
     \/ \E lost \in [DOMAIN species -> {0, 1}] : DoCount(lost)
     \/ \E cs \in SUBSET (4..Len(species)) : DoRedistribute(cs)
-    \/ DoPurge
 Spec == Init /\ [][Next]_vars
 
 (* ---------------- scopes ---------------- *)
@@ -132,23 +122,23 @@ P(ns, maxsp, maxfit, classes, sig, sts, bss, modes) ==
 Half == Fr(1, 2)
 \* quick: (a) apportionment over all age classes that change the multiplier, (b) redistribution (steal / delta coding)
 ParamsQuick ==
-    { P(1..5, 3, 2, {"y", "os", "o"}, Fr(2, 1), {Half}, {0}, {"fresh"}),
-      P(1..4, 2, 3, {"oz", "y10", "o11", "oi"}, Fr(3, 2), {Fr(1, 4), Fr(1, 1)}, {0}, {"fresh"}),
-      P({5, 6}, 3, 2, {"y6", "o", "os"}, Fr(2, 1), {Half}, {1, 2, 3}, {"fresh"}),
-      P(1..5, 3, 2, {"y", "o"}, Fr(2, 1), {Half}, {0, 2}, {"stale", "almost"}) }
+    { P(1..4, 3, 2, {"y", "os", "o"}, Fr(2, 1), {Half}, {0}, {"fresh"}),
+      P(1..3, 2, 3, {"oz", "y10", "o11", "oi"}, Fr(3, 2), {Fr(1, 4), Fr(1, 1)}, {0}, {"fresh"}),
+      P({5, 6}, 2, 1, {"y6", "o", "os"}, Fr(2, 1), {Half}, {1, 2, 3}, {"fresh"}),
+      P(2..5, 3, 1, {"y", "o"}, Fr(2, 1), {Half}, {2}, {"stale", "almost"}) }
 ParamsThorough ==
-    { P(1..7, 3, 3, {"y", "os", "o", "ys"}, Fr(2, 1), {Half}, {0}, {"fresh"}),
-      P(1..6, 4, 2, {"y", "os", "o"}, Fr(3, 2), {Fr(1, 4)}, {0}, {"fresh"}),
-      P(1..5, 3, 3, {"oz", "y10", "o11", "oi", "y6"}, Fr(3, 2), {Fr(1, 4), Fr(3, 4), Fr(1, 1)}, {0}, {"fresh"}),
-      P({6, 7, 8}, 4, 2, {"y6", "o", "os", "oi"}, Fr(2, 1), {Half}, {1, 2, 3, 4}, {"fresh"}),
-      P(1..6, 3, 2, {"y", "o", "os"}, Fr(2, 1), {Half}, {0, 2}, {"stale", "almost"}) }
+    { P(1..6, 3, 2, {"y", "os", "o"}, Fr(2, 1), {Half}, {0}, {"fresh"}),
+      P({6, 7, 8}, 2, 3, {"y", "os", "o"}, Fr(3, 2), {Fr(1, 4)}, {0}, {"fresh"}),
+      P(1..5, 2, 3, {"oz", "y10", "o11", "oi", "ys"}, Fr(3, 2), {Fr(1, 4), Fr(3, 4), Fr(1, 1)}, {0}, {"fresh"}),
+      P({6, 7, 8}, 4, 1, {"y6", "o", "os", "oi"}, Fr(2, 1), {Half}, {1, 2, 3, 4}, {"fresh"}),
+      P(2..6, 3, 2, {"y", "o", "os"}, Fr(2, 1), {Half}, {0, 2}, {"stale", "almost"}) }
 
 (* ---------------- properties (C09) ---------------- *)
-Counted == pc \in {"counted", "redistributed", "done"}
-Redistributed == pc \in {"redistributed", "done"}
+Counted == pc \in {"counted", "done"}
+Redistributed == pc = "done"
 SpeciesIdx == DOMAIN species
 \* expectations total the population size
-ExpectationsTotalN == pc \in {"adjusted", "counted", "redistributed", "done"} => Sum([k \in SpeciesIdx |-> Sum(Ens[k])]) = N * T
+ExpectationsTotalN == pc \in {"adjusted", "counted", "done"} => Sum([k \in SpeciesIdx |-> Sum(Ens[k])]) = N * T
 \* the per-organism loop of countOffspring is floor-and-carry of the running total
 LoopIsFloorCarry == pc = "adjusted" => ExactRaw(Ens, T) = RawQuota(Ens, T, [k \in SpeciesIdx |-> 0])
 \* quotas total the population size after every stage
@@ -167,7 +157,7 @@ MakeUpOnce == Counted => /\ ~res.died
                          /\ (res.mk # 0) <=> (res.lost[Len(species)] = 1)
                          /\ \A k \in SpeciesIdx : res.q1[k] = res.raw[k] + (IF res.mk = k THEN 1 ELSE 0)
 \* parents: the top floor(t * n) + 1 organisms (all of them when that exceeds the size), never none
-ParentCutOff == pc # "setup" /\ pc # "start" =>
+ParentCutOff == pc # "setup" =>
     \A k \in SpeciesIdx : LET n == Len(species[k].fit) IN
         /\ res.adj[k].parents = MinI(n, (res.st.n * n) \div res.st.d + 1)
         /\ res.adj[k].parents >= 1
